@@ -344,13 +344,14 @@ def judge_script(h, expect, line):
             return None, judged          # a wall-clock bound: not an observation
         judged += 1
         it = h["items"][k]
-        what = "Run of piece %d" % k if it["api"] == "RN" else "Call of %s" % it["fn"]
+        what = ("Run of piece %d" % k if it["api"] == "RN" else "Call of %s" % it["fn"] if it["api"] == "CL"
+                else "Call of the function the host kept as %s" % it["reg"])
         known = ",".join(x for x in g.split(",") if not x.endswith("=?"))
         why = None
         if shared != fresh or g != fg:
             why = "invocation %d (%s) on the reused VM gave %s (globals %s); a new VM given the same globals and definitions gives %s (globals %s)" % (
                 k, what, shared, g, fresh, fg)
-        elif (ev == "E" and not shared.startswith("E")) or (ev != "E" and shared != ev) or known != eg:
+        elif (ev == "E" and not shared.startswith("E")) or (ev not in ("E", None) and shared != ev) or known != eg:
             why = "invocation %d (%s) on the reused VM gave %s (globals %s); the current values of the globals make it %s (globals %s)" % (
                 k, what, shared, g, "an error" if ev == "E" else ev, eg)
         if why:
@@ -692,7 +693,12 @@ def _body(res, tier, obs, model, work, proved):
                    "invocation is also run on a VM created for it (same global, own-context events only) = oracle; the extracted "
                    "model predicts outcome and global of every invocation. Script-global histories (REPL protocol Run + Call): top-level functions, literals nested "
                    "1-3 deep in factories, captured-variable closures, callbacks, deferred / named inner / recursive functions, functions held in maps "
-                   "and lists, run directly, through try, on threads and by the host's Call, read and write int globals that other invocations assign, "
+                   "and lists, wide functions (> 8 locals, with closures, ending by an error) and closure factories called at use time in frame slots of every size, "
+                   "run directly, through try, on threads, one frame deeper in small and wide frames, by the host's Call and - for factory products the host kept - by Call on the kept function; "
+                   "handles an earlier invocation made under ITS context and left in a global (finished threads with a value / an error / a closure made on the thread, "
+                   "buffered channels filled by main code or a thread, list / int / string / map iterators, bound methods) used by later invocations after that context "
+                   "was cancelled by the host (right after the invocation, at the end, or by a later piece through the host builtin cancel_ctx(i) just before the use); all these "
+                   "read and write int globals that other invocations assign, "
                    "declare or leave half-changed by a failing piece; each invocation is repeated on a new VM that runs everything earlier as one "
                    "program in one Run, and its result and the globals must also equal the generator's own account. Non-trivial = distinct (tag sequence, position) with an "
                    "earlier abnormal end or a stale cancellation in play." % (len(enumerate_pairs(C.Rng(1))), max(nrand)))
@@ -761,7 +767,7 @@ def replay(data):
         return 0
     if h.get("mode") == "script":
         for k, it in enumerate(h["items"]):
-            print("--- invocation %d: %s" % (k, "Run of the piece" if it["api"] == "RN" else "Call %s%s" % (it["fn"], tuple(it.get("args") or ()))))
+            print("--- invocation %d: %s" % (k, "Run of the piece" if it["api"] == "RN" else "Call %s%s" % (it.get("fn") or it.get("reg"), tuple(it.get("args") or ()))))
             if it["api"] == "RN":
                 print(it["src"])
     rc, o, e = C.run([obs], input=(json.dumps(h) + "\n").encode(), timeout=120)
